@@ -24,6 +24,8 @@ partial (see notes/C12.md).
 import SqiProofs.ThetaChain
 import SqiProofs.ThetaBalanced
 import SqiModel.SkelTheta
+import SqiProofs.SkelThetaSim
+import SqiProofs.SkelThetaFSim
 import SqiProps.C18
 
 set_option maxRecDepth 100000
@@ -69,12 +71,62 @@ integer state (adjusting, len_count, index, len_list, level[], i, j, the reads `
 conditions); every theta / point statement is an opaque event carrying the array slots it touches
 (points1/2, Q1/2, out->steps), interpreted by the order-tracking observer `SqiModel.SkelTheta.obs`.
 Tie skeleton ↔ hand model (the object of `chain_strategy_sound`):
-  * `skeleton_agrees_small` (kernel): on small strategies of every shape, both routines, both modes, valid and invalid:
-    same fault status, final index / len_list, iterated doublings (array, slot, count), step indices, kernel exponents —
-    an off-by-one in the level[] / len_count / index bookkeeping of the C text breaks this obligation;
-  * every row of the three real tables × both routines × both modes: the same comparison executed on every check run
-    (driver op `skel.theta`).
-A per-loop simulation proof for all inputs is not done (fallback, as for C09). -/
+  * `translated_theta_chain_refines`, `translated_theta_chain_faster_refines` (THEOREMS, all inputs): for every row, every
+    `n`, both `eight_above` modes, every `oracle` (outcome of `splitting_comput`) and every fuel ≥ max(n+11, |row|):
+    whenever the hand model `chain` runs without fault, the run of the *generated* skeleton under the interpreter of
+    `SqiModel.Skel` has no fault (index, uninitialised read, table column, VLA size, fuel, observer), ends with the same
+    `index` / `len_list` and produces the same three logs: iterated doublings (array, slot, count), step indices written
+    to `out->steps`, kernel exponents.  One simulation lemma per loop of the C in `SqiProofs.SkelThetaSim`
+    (`loop0` ≙ phase1, `pts_sim` ≙ buildPts, `glue_sim`, `loop4` ≙ levelSum, `while_sim` ≙ whileLoop, `loop6`,
+    `iter_sim`, `for_sim`, `skel_refines`; invariant `RelQ`); the proof for `_faster_no_eval` is the same text with the
+    names replaced (`SqiProofs.SkelThetaFSim`, derived by tools/dev/dup_theta_sim.py — the two generated skeletons are
+    identical up to names).
+  * `translated_theta_chain_sound`: hence `chain_strategy_sound` holds of the translated text of both routines;
+    `L{1,3,5}_translated_theta_sound`: for every admissible (n, mode) of the three real tables.
+  * `skeleton_agrees_small` (kernel) and the comparison executed on every row × routine × mode on every check run
+    (driver op `skel.theta`) remain as an independent cross-check which also covers the faulting direction
+    (hand model faults ⇒ skeleton faults), which the theorems do not state. -/
+
+open SqiProofs.SkelThetaSim in
+/-- the generated integer skeleton of `theta_chain_comput_strategy` refines the hand model, for ALL inputs -/
+theorem translated_theta_chain_refines (P : Params) (oracle : Nat → Bool) (fuel : Nat)
+    (hfn : P.n + 11 ≤ fuel) (hfr : P.row.length ≤ fuel) (he : (chain P).err = none) :
+    Final P (SqiGen.ChainSkel.theta_chain_comput_strategy SqiModel.SkelTheta.obs P.row oracle fuel P.n
+        (if P.eightAbove then 1 else 0) (SqiGen.ChainSkel.ThetaSt.init (SqiModel.SkelTheta.OSt.init P.kexp))) (chain P) :=
+  skel_refines P oracle fuel _ hfn hfr rfl he
+
+open SqiProofs.SkelThetaFSim in
+/-- the generated integer skeleton of `theta_chain_comput_strategy_faster_no_eval` refines the hand model, for ALL inputs -/
+theorem translated_theta_chain_faster_refines (P : Params) (oracle : Nat → Bool) (fuel : Nat)
+    (hfn : P.n + 11 ≤ fuel) (hfr : P.row.length ≤ fuel) (he : (chain P).err = none) :
+    Final P (SqiGen.ChainSkel.theta_chain_comput_strategy_faster_no_eval SqiModel.SkelTheta.obs P.row oracle fuel P.n
+        (if P.eightAbove then 1 else 0) (SqiGen.ChainSkel.ThetaFSt.init (SqiModel.SkelTheta.OSt.init P.kexp))) (chain P) :=
+  skel_refines P oracle fuel _ hfn hfr rfl he
+
+/-- soundness of the hand model transferred to the translated text of both routines: no fault, the same number of
+    strategy entries consumed, every gluing / generic kernel pair of exponent 3 (order 8), the two final ones 2 and 1 -/
+theorem translated_theta_chain_sound (P : Params) (oracle : Nat → Bool) (fuel sb : Nat)
+    (hfn : P.n + 11 ≤ fuel) (hfr : P.row.length ≤ fuel)
+    (h : (chain P).err = none ∧ (chain P).index = sb ∧ (chain P).trace.all (evOk P.n sb) = true) :
+    let k := SqiGen.ChainSkel.theta_chain_comput_strategy SqiModel.SkelTheta.obs P.row oracle fuel P.n
+        (if P.eightAbove then 1 else 0) (SqiGen.ChainSkel.ThetaSt.init (SqiModel.SkelTheta.OSt.init P.kexp))
+    let k' := SqiGen.ChainSkel.theta_chain_comput_strategy_faster_no_eval SqiModel.SkelTheta.obs P.row oracle fuel P.n
+        (if P.eightAbove then 1 else 0) (SqiGen.ChainSkel.ThetaFSt.init (SqiModel.SkelTheta.OSt.init P.kexp))
+    (k.fault = none ∧ k.obs.bad = false ∧ k.index = (sb : Int) ∧
+      ∀ e ∈ k.obs.kers, e = (10, 3) ∨ e = (12, 3) ∨ e = (14, 2) ∨ e = (15, 1)) ∧
+    (k'.fault = none ∧ k'.obs.bad = false ∧ k'.index = (sb : Int) ∧
+      ∀ e ∈ k'.obs.kers, e = (10, 3) ∨ e = (12, 3) ∨ e = (14, 2) ∨ e = (15, 1)) := by
+  obtain ⟨a, b, c⟩ := h
+  have F := translated_theta_chain_refines P oracle fuel hfn hfr a
+  have F' := translated_theta_chain_faster_refines P oracle fuel hfn hfr a
+  have hk := SqiProofs.SkelThetaSim.kers_of_evOk _ _ _ c
+  refine ⟨⟨F.kf, F.kb, by rw [F.ix, b], ?_⟩, ⟨F'.kf, F'.kb, by rw [F'.ix, b], ?_⟩⟩
+  · have := F.lg
+    simp only [SqiProofs.SkelThetaSim.logs, Prod.mk.injEq] at this
+    rw [this.2.2]; exact hk
+  · have := F'.lg
+    simp only [SqiProofs.SkelThetaFSim.logs, Prod.mk.injEq] at this
+    rw [this.2.2]; exact hk
 
 theorem skeleton_agrees_small : SqiModel.SkelTheta.smallAllAgree = true := by decide +kernel
 
@@ -177,6 +229,22 @@ theorem L1_theta_rows_sound (n : Nat) (ea : Bool) (row : List Nat)
     (chain P).trace.all (evOk P.n (P.n - P.adj - 1)) = true ∧ stepSum (chain P).trace = P.n :=
   theta_chain_of_rows _ _ _ SqiProps.C18.L1_strategies_rows L1_strategies_shape.2.2 n ea row hr
 
+/-- the translated text of both strategy routines on the level-1 table: every admissible (n, mode) -/
+theorem L1_translated_theta_sound (n : Nat) (ea : Bool) (row : List Nat) (oracle : Nat → Bool) (fuel : Nat)
+    (hr : callerRow strategies D_POWER_OF_2 n ea = some row) (hfn : n + 11 ≤ fuel) (hfr : row.length ≤ fuel) :
+    let P : Params := { row := row, n := n, eightAbove := ea }
+    let k := SqiGen.ChainSkel.theta_chain_comput_strategy SqiModel.SkelTheta.obs P.row oracle fuel P.n
+        (if P.eightAbove then 1 else 0) (SqiGen.ChainSkel.ThetaSt.init (SqiModel.SkelTheta.OSt.init P.kexp))
+    let k' := SqiGen.ChainSkel.theta_chain_comput_strategy_faster_no_eval SqiModel.SkelTheta.obs P.row oracle fuel P.n
+        (if P.eightAbove then 1 else 0) (SqiGen.ChainSkel.ThetaFSt.init (SqiModel.SkelTheta.OSt.init P.kexp))
+    (k.fault = none ∧ k.obs.bad = false ∧ k.index = ((P.n - P.adj - 1 : Nat) : Int) ∧
+      ∀ e ∈ k.obs.kers, e = (10, 3) ∨ e = (12, 3) ∨ e = (14, 2) ∨ e = (15, 1)) ∧
+    (k'.fault = none ∧ k'.obs.bad = false ∧ k'.index = ((P.n - P.adj - 1 : Nat) : Int) ∧
+      ∀ e ∈ k'.obs.kers, e = (10, 3) ∨ e = (12, 3) ∨ e = (14, 2) ∨ e = (15, 1)) := by
+  intro P
+  obtain ⟨a, b, c, _⟩ := L1_theta_rows_sound n ea row hr
+  exact translated_theta_chain_sound P oracle fuel _ hfn hfr ⟨a, b, c⟩
+
 /-- outside `115 ≤ n - adjusting ≤ 248` the callers' row index is outside the table (negation witness of
     "for all 1 ≤ n ≤ f"): e.g. n = 114 with the 8-torsion above -/
 theorem L1_theta_out_of_range : callerRow strategies D_POWER_OF_2 114 true = none ∧
@@ -202,6 +270,22 @@ theorem L3_theta_rows_sound (n : Nat) (ea : Bool) (row : List Nat)
     (chain P).err = none ∧ (chain P).index = P.n - P.adj - 1 ∧
     (chain P).trace.all (evOk P.n (P.n - P.adj - 1)) = true ∧ stepSum (chain P).trace = P.n :=
   theta_chain_of_rows _ _ _ SqiProps.C18.L3_strategies_rows L3_strategies_shape.2.2 n ea row hr
+
+/-- the translated text of both strategy routines on the level-3 table: every admissible (n, mode) -/
+theorem L3_translated_theta_sound (n : Nat) (ea : Bool) (row : List Nat) (oracle : Nat → Bool) (fuel : Nat)
+    (hr : callerRow strategies D_POWER_OF_2 n ea = some row) (hfn : n + 11 ≤ fuel) (hfr : row.length ≤ fuel) :
+    let P : Params := { row := row, n := n, eightAbove := ea }
+    let k := SqiGen.ChainSkel.theta_chain_comput_strategy SqiModel.SkelTheta.obs P.row oracle fuel P.n
+        (if P.eightAbove then 1 else 0) (SqiGen.ChainSkel.ThetaSt.init (SqiModel.SkelTheta.OSt.init P.kexp))
+    let k' := SqiGen.ChainSkel.theta_chain_comput_strategy_faster_no_eval SqiModel.SkelTheta.obs P.row oracle fuel P.n
+        (if P.eightAbove then 1 else 0) (SqiGen.ChainSkel.ThetaFSt.init (SqiModel.SkelTheta.OSt.init P.kexp))
+    (k.fault = none ∧ k.obs.bad = false ∧ k.index = ((P.n - P.adj - 1 : Nat) : Int) ∧
+      ∀ e ∈ k.obs.kers, e = (10, 3) ∨ e = (12, 3) ∨ e = (14, 2) ∨ e = (15, 1)) ∧
+    (k'.fault = none ∧ k'.obs.bad = false ∧ k'.index = ((P.n - P.adj - 1 : Nat) : Int) ∧
+      ∀ e ∈ k'.obs.kers, e = (10, 3) ∨ e = (12, 3) ∨ e = (14, 2) ∨ e = (15, 1)) := by
+  intro P
+  obtain ⟨a, b, c, _⟩ := L3_theta_rows_sound n ea row hr
+  exact translated_theta_chain_sound P oracle fuel _ hfn hfr ⟨a, b, c⟩
 end L3
 
 section L5
@@ -214,6 +298,22 @@ theorem L5_theta_rows_sound (n : Nat) (ea : Bool) (row : List Nat)
     (chain P).err = none ∧ (chain P).index = P.n - P.adj - 1 ∧
     (chain P).trace.all (evOk P.n (P.n - P.adj - 1)) = true ∧ stepSum (chain P).trace = P.n :=
   theta_chain_of_rows _ _ _ SqiProps.C18.L5_strategies_rows L5_strategies_shape.2.2 n ea row hr
+
+/-- the translated text of both strategy routines on the level-5 table: every admissible (n, mode) -/
+theorem L5_translated_theta_sound (n : Nat) (ea : Bool) (row : List Nat) (oracle : Nat → Bool) (fuel : Nat)
+    (hr : callerRow strategies D_POWER_OF_2 n ea = some row) (hfn : n + 11 ≤ fuel) (hfr : row.length ≤ fuel) :
+    let P : Params := { row := row, n := n, eightAbove := ea }
+    let k := SqiGen.ChainSkel.theta_chain_comput_strategy SqiModel.SkelTheta.obs P.row oracle fuel P.n
+        (if P.eightAbove then 1 else 0) (SqiGen.ChainSkel.ThetaSt.init (SqiModel.SkelTheta.OSt.init P.kexp))
+    let k' := SqiGen.ChainSkel.theta_chain_comput_strategy_faster_no_eval SqiModel.SkelTheta.obs P.row oracle fuel P.n
+        (if P.eightAbove then 1 else 0) (SqiGen.ChainSkel.ThetaFSt.init (SqiModel.SkelTheta.OSt.init P.kexp))
+    (k.fault = none ∧ k.obs.bad = false ∧ k.index = ((P.n - P.adj - 1 : Nat) : Int) ∧
+      ∀ e ∈ k.obs.kers, e = (10, 3) ∨ e = (12, 3) ∨ e = (14, 2) ∨ e = (15, 1)) ∧
+    (k'.fault = none ∧ k'.obs.bad = false ∧ k'.index = ((P.n - P.adj - 1 : Nat) : Int) ∧
+      ∀ e ∈ k'.obs.kers, e = (10, 3) ∨ e = (12, 3) ∨ e = (14, 2) ∨ e = (15, 1)) := by
+  intro P
+  obtain ⟨a, b, c, _⟩ := L5_theta_rows_sound n ea row hr
+  exact translated_theta_chain_sound P oracle fuel _ hfn hfr ⟨a, b, c⟩
 end L5
 
 end SqiProps.C12
